@@ -26,6 +26,9 @@ TNoGain == /\ IsEvent("step") /\ ~Ev.pos /\ Ev.gain <= 0 /\ ArgsMatch /\ NoGainS
 TKnownSplit == /\ IsEvent("step") /\ Ev.gain > 0 /\ ArgsMatch
                /\ \E c \in CandsNow(SetOf(Ev.fsub)) : Matches(c) /\ KnownDStarSplit(SetOf(Ev.fsub), c, Ev.gain)
 TKnownStop == /\ IsEvent("step") /\ ~Ev.pos /\ Ev.gain <= 0 /\ ArgsMatch /\ KnownDStarStop(SetOf(Ev.fsub))
+TKnownRealloc == /\ IsEvent("step") /\ Ev.gain > 0 /\ Ev.gainok /\ ArgsMatch
+                 /\ \E c \in CandsNow(SetOf(Ev.fsub)) : Matches(c) /\ G(c) = Ev.gain /\ KnownReallocSplit(SetOf(Ev.fsub), c)
+TKnownReallocStop == /\ IsEvent("step") /\ ~Ev.pos /\ Ev.gain <= 0 /\ ArgsMatch /\ KnownReallocStop(SetOf(Ev.fsub))
 TreeMatches(t) ==
     /\ Len(t.left) = Len(tree)
     /\ \A i \in 1..Len(tree) :
@@ -40,7 +43,7 @@ TEnd == /\ IsEvent("end") /\ Finish
         /\ (dev = 0 => Ev.scoreok /\ Ev.score = ObjLab(K, Lab(st)))
         /\ Ev.score2ok                 \* score(other data of the same size) = objective of the labels predicted for it
 
-TNext == TSetup \/ TSplit \/ TZeroSplit \/ TNoGain \/ TKnownSplit \/ TKnownStop \/ TEnd
+TNext == TSetup \/ TSplit \/ TZeroSplit \/ TNoGain \/ TKnownSplit \/ TKnownStop \/ TKnownRealloc \/ TKnownReallocStop \/ TEnd
 TSpec == TInit /\ [][TNext]_tvars
 
 (* acceptance: the whole trace was consumed; the harness collects these lines *)
